@@ -139,6 +139,28 @@ class SelfObj(Ref):
         return None
 
 
+class MapSeq:
+    """the value of `[E(v) for v in SEQ]` (one generator, no filter): element k is E with v bound to SEQ[k], evaluated in the environment of the comprehension"""
+
+    def __init__(self, seq, var, elt, env, K, S, f, guards, loops, depth):
+        self.seq, self.var, self.elt, self.env = seq, var, elt, env
+        self.K, self.S, self.f, self.guards, self.loops, self.depth = K, S, f, guards, loops, depth
+
+    def at(self, idx):
+        env = dict(self.env)
+        env[self.var] = self.K.element_of(self.seq, idx)
+        return self.K.ev(self.elt, env, self.S, self.f, self.guards, self.loops, self.depth)
+
+    def __eq__(self, other):
+        return self is other
+
+    def __hash__(self):
+        return id(self)
+
+    def __repr__(self):
+        return f"[{unparse(self.elt)[:60]} for {self.var} in {self.seq!r}]"
+
+
 class ShapeOf:
     def __init__(self, ref: Ref):
         self.ref = ref
@@ -803,6 +825,8 @@ class KEval:
     def length_of(self, seq):
         if isinstance(seq, tuple):
             return Poly.const(len(seq))
+        if isinstance(seq, MapSeq):
+            return self.length_of(seq.seq)
         if isinstance(seq, Ref):
             return ShapeOf(seq).get(0)
         if isinstance(seq, Poly):
@@ -810,6 +834,8 @@ class KEval:
         return TOP
 
     def element_of(self, seq, idx: Poly):
+        if isinstance(seq, MapSeq):
+            return seq.at(idx)
         if isinstance(seq, Ref):
             return seq.index((idx,))
         if isinstance(seq, Poly):
@@ -1169,6 +1195,12 @@ class KEval:
             return self.call(e, env, S, f, guards, loops, depth, hint)
         if isinstance(e, ast.JoinedStr):
             return Const("<fstring>")
+        if isinstance(e, ast.ListComp) and len(e.generators) == 1 and not e.generators[0].ifs and not e.generators[0].is_async and isinstance(e.generators[0].target, ast.Name):
+            # [E(v) for v in SEQ]: a sequence as long as SEQ whose element k is E evaluated at SEQ[k] (a list precomputed for a later loop is that loop's own expression)
+            seq = self.ev(e.generators[0].iter, env, S, f, guards, loops, depth)
+            if isinstance(seq, (Ref, MapSeq, Poly)):
+                return MapSeq(seq, e.generators[0].target.id, e.elt, dict(env), self, S, f, guards, loops, depth)
+            return TOP
         if isinstance(e, (ast.ListComp, ast.GeneratorExp, ast.SetComp, ast.DictComp, ast.Lambda, ast.Dict, ast.Set, ast.Starred)):
             return TOP
         return TOP
@@ -1319,6 +1351,10 @@ class KEval:
         # array methods
         if isinstance(fn, ast.Attribute):
             base = self.ev(fn.value, env, S, f, guards, loops, depth)
+            if isinstance(base, Poly) and name in ("copy", "astype", "view") and not isinstance(fn.value, ast.Name):
+                return base   # a copy / cast of a computed array expression holds the same values
+            if isinstance(base, Poly) and name == "copy":
+                return base
             if isinstance(base, Ref) and base.name not in ("self", "cls"):
                 if name in ("astype", "copy", "view", "ravel", "flatten"):
                     if name == "copy":
